@@ -235,6 +235,73 @@ def compare_runs(res):
     return None
 
 
+# ---------------------------------------------------------------------------- operators: every spelling combination of integral operands
+OP_BIN = ['+', '-', '*', '/', '%', '**', '==', '!=', '<', '<=', '>', '>=', '&&', '||']
+OP_INTS = [0, 1, 2, 3, -1, -2, -8, 7, 10, 16, 255, 1000, -99999, 4294967296, 123456789012345, 999999999999999]
+OP_FRACS = [0.5, -2.25, 1.5, 1e-3]
+
+
+def operator_family(chk):
+    """a OP b and unary - ! with every integral operand as host int and as float (4 / 2 spelling combinations): the results must be the
+    same number (or the same non-number), the same failure (null)"""
+    from . import interp
+    from fractions import Fraction
+    cases, meta = [], []
+
+    def spell(v, as_int):
+        return interp.vint(v) if as_int and isinstance(v, int) else interp.vflt(float(v))
+    for op in OP_BIN:
+        for a in OP_INTS + OP_FRACS:
+            for b in OP_INTS + OP_FRACS:
+                if op == '**' and isinstance(a, int) and abs(a) > 1000 and isinstance(b, int) and b > 16:
+                    continue        # astronomically large exact powers (an int ** int of millions of digits does not terminate: observation F22)
+                combos = [(x, y) for x in ((True, False) if isinstance(a, int) else (False,)) for y in ((True, False) if isinstance(b, int) else (False,))]
+                if len(combos) < 2:
+                    continue
+                for x, y in combos:
+                    cases.append({'expr_text': f'a {op} b', 'globals': {'a': spell(a, x), 'b': spell(b, y)}, 'locals': None, 'builtins': True})
+                    meta.append((op, a, b, x, y))
+    for op in ('-', '!'):
+        for a in OP_INTS:
+            for x in (True, False):
+                cases.append({'expr_text': f'{op}a', 'globals': {'a': spell(a, x)}, 'locals': None, 'builtins': True})
+                meta.append((op, a, None, x, None))
+    impl = core.run_impl('run_script', cases)
+
+    def num_of(t):
+        if t[0] == 'int':
+            return Fraction(int(t[1], 0))
+        if t[0] == 'flt':
+            f = float.fromhex(t[1]) if t[1] not in ('nan', 'inf', '-inf') else float(t[1])
+            return Fraction(f) if math.isfinite(f) else ('nonfinite', repr(f))
+        return None
+
+    def canon_res(res):
+        if 'host' in res:
+            return ('host', res['host'])
+        if 'rt' in res:
+            return ('rt', res['rt'])
+        t = res.get('res')
+        n = num_of(t) if isinstance(t, list) else None
+        return ('num', n) if n is not None else ('val', json.dumps(t, sort_keys=True))
+    groups = {}
+    for m, res in zip(meta, impl):
+        groups.setdefault(m[:3], []).append((m[3:], canon_res(res), res))
+    n_groups = 0
+    for (op, a, b), runs in groups.items():
+        n_groups += 1
+        first = runs[0][1]
+        for sp, c, res in runs[1:]:
+            if c != first:
+                exact = any(r_[1][0] == 'num' and not isinstance(r_[1][1], tuple) and abs(r_[1][1]) > 2 ** 53 for r_ in runs)
+                chk.oracle_fail.append({'class': 'operator-result-exact-int-vs-rounded-float-beyond-2^53' if exact and all(r_[1][0] == 'num' for r_ in runs)
+                                        else 'operator-result-differs-by-spelling',
+                                        'source': f'{a!r} {op} {b!r}' if b is not None else f'{op}{a!r}', 'input': {'op': op, 'a': a, 'b': b},
+                                        'runs': [{'a_int': s_[0], 'b_int': s_[1], 'result': r_.get('res') or r_.get('rt') or r_.get('host')} for s_, _, r_ in runs]})
+                break
+    return {'operator_groups': n_groups, 'operator_evaluations': len(cases)}
+
+
 # ---------------------------------------------------------------------------- Coq encoding (modelled functions, scalar and flat-array arguments)
 MODELLED = None
 
@@ -343,6 +410,7 @@ def run(tier):
         for _ in range(per_fn):
             cases.append(gen_case(r, f, table))
     impl = core.run_impl('lib_spell', cases)
+    op_stats = operator_family(chk)
 
     dist = {}
     n_nontrivial = 0
@@ -400,7 +468,7 @@ def run(tier):
             chk.corr_fail.append({'class': 'model-differs', 'more': len(bad) - 10})
 
     chk.coverage = {
-        'evaluations': 2 * len(cases),
+        'evaluations': 2 * len(cases) + op_stats['operator_evaluations'], 'operators': op_stats,
         'distinct_nontrivial': n_nontrivial,
         'rule': 'one evaluation = one call of a library function through a real script (each case is run in both spellings); '
                 'non-trivial = the argument list contains at least one integral number (top level or nested)',
